@@ -8,7 +8,7 @@ PROP = 'C12'
 LEAN_TARGETS = ['Props.C12']
 REQUIRED_THEOREMS = ['Props.C12.parameters_nodup', 'Props.C12.parameters_eq_dedup_flat', 'Props.C12.mem_parameters_iff',
                      'Props.C12.numParams_split', 'Props.C12.setAttr_replaces', 'Props.C12.setTraining_reaches',
-                     'Props.C12.sequential_order']
+                     'Props.C12.sequential_order', 'Props.C12.zeroGrad_exact', 'Props.C12.setReqGrad_exact']
 RULE = ('random module programs: create modules/parameters, assign attributes from a small name pool (so names are '
         're-assigned to another module / parameter / None / a plain value), explicit register_*, Sequential positional '
         'and OrderedDict, shared parameters and submodules (child created before parent), interleaved with '
@@ -63,12 +63,16 @@ def gen_program(rng, nops):
         else:
             m = rng.randrange(nm)
             ops.append(f'mod {rng.pick(["train", "eval", "zero", "freeze", "unfreeze"])} {m}')
+        if npar and rng.chance(.25):       # gradients: set through the setter, shared between two parameters, then zeroed / frozen above
+            a, b_ = rng.randrange(npar), rng.randrange(npar)
+            ops.append(rng.pick([f'mod gset {a} {rng.randint(1, 9)}', f'mod gset {a} {rng.randint(1, 9)}', f'mod gshare {a} {b_}']))
+            ops.append('mod grads')
         # observe after every op
         q = rng.randrange(nm)
         ops += [f'mod params {q}', f'mod num {q}']
         if rng.chance(0.5):
-            ops += ['mod flags', 'mod pflags']
-    ops += [f'mod params {k}' for k in range(nm)] + ['mod flags', 'mod pflags']
+            ops += ['mod flags', 'mod pflags', 'mod grads']
+    ops += [f'mod params {k}' for k in range(nm)] + ['mod flags', 'mod pflags', 'mod grads']
     return ops, shared or reassigned
 
 
@@ -108,6 +112,9 @@ def cases(rng, tier):
         ['mod new', 'mod new', 'mod param 2 0', 'mod set 0 a p0', 'mod set 1 a m0', 'mod set 1 a p0', 'mod params 1', 'mod set 1 a m0', 'mod regp 1 a 0', 'mod params 1'],
         ['mod seq _', 'mod order 0', 'mod params 0'],
         ['mod new', 'mod new', 'mod new', 'mod set 1 a m0', 'mod set 2 a m1', 'mod eval 2', 'mod flags', 'mod train 1', 'mod flags'],
+        # two parameters of different modules over the same gradient values; zero_grad on one owner leaves the other alone
+        ['mod new', 'mod new', 'mod param 3 1', 'mod param 3 1', 'mod set 0 w p0', 'mod set 1 w p1', 'mod gset 0 5', 'mod gshare 0 1', 'mod grads', 'mod zero 0', 'mod grads', 'mod pflags',
+         'mod freeze 1', 'mod gset 0 7', 'mod gshare 0 1', 'mod zero 1', 'mod grads'],
     ]
     for ops in corpus:
         out.append({'lines': ops, 'nt': True, 'desc': ' ; '.join(ops)})
@@ -152,6 +159,16 @@ class World:
         if t[0] == 'seqd':
             d = OrderedDict() if t[1] == '_' else OrderedDict((nk.split(':')[0], self.mods[int(nk.split(':')[1])]) for nk in t[1].split(','))
             self.mods.append(nn.Sequential(d)); return f'm{len(self.mods) - 1}'
+        if t[0] == 'gset':          # p.grad = Tensor(full(v)) through the public setter
+            P = self.pars[int(t[1])]
+            P.grad = self.sg.Tensor(np.full(P.shape, float(t[2]), dtype=P.data.dtype)); return 'ok'
+        if t[0] == 'gshare':        # q.grad = p.grad : two parameters over the same gradient values (the implementation shares the buffer)
+            P, Q = self.pars[int(t[1])], self.pars[int(t[2])]
+            if P._grad is not None and P.data.size == Q.data.size:
+                Q.grad = P.grad
+            return 'ok'
+        if t[0] == 'grads':
+            return ','.join('-' if p._grad is None else str(int(p._grad.ravel()[0])) for p in self.pars) or '_'
         m = self.mods[int(t[1])] if len(t) > 1 else None
         if t[0] == 'params':
             ps = m.parameters()
